@@ -59,11 +59,15 @@ type GhostCounter struct {
 }
 
 // CallAssert: an assertion checked in the state just before the k-th call to
-// a callee (old() = entry state of the function).
+// a callee (old() = entry state of the function). With Assume set the clause
+// is instead ASSUMED in the state just after that call (a named assumption
+// about an external callee, listed in the trusted base).
 type CallAssert struct {
 	Ordinal int
 	Callee  string
 	C       *Clause
+	Assume  bool
+	Trust   string
 }
 
 // CallName binds the result of the k-th call (in block order) whose callee
@@ -233,6 +237,25 @@ func (cs *Contracts) loadFile(file, pkgPath, pkgName string) error {
 			cur.Trust = rest
 		case "call":
 			f := strings.Fields(rest)
+			if len(f) >= 4 && f[2] == "assume" {
+				k, err := strconv.Atoi(f[0])
+				if err != nil {
+					return perr(err)
+				}
+				body := strings.TrimSpace(rest[strings.Index(rest, " assume ")+8:])
+				trust := "A-ENV"
+				if strings.HasPrefix(body, "[") {
+					j := strings.Index(body, "]")
+					trust = body[1:j]
+					body = strings.TrimSpace(body[j+1:])
+				}
+				c, err := mk("assume", body)
+				if err != nil {
+					return err
+				}
+				cur.CallAsserts = append(cur.CallAsserts, CallAssert{Ordinal: k, Callee: f[1], C: c, Assume: true, Trust: trust})
+				break
+			}
 			if len(f) >= 4 && f[2] == "assert" {
 				k, err := strconv.Atoi(f[0])
 				if err != nil {
@@ -243,7 +266,7 @@ func (cs *Contracts) loadFile(file, pkgPath, pkgName string) error {
 				if err != nil {
 					return err
 				}
-				cur.CallAsserts = append(cur.CallAsserts, CallAssert{k, f[1], c})
+				cur.CallAsserts = append(cur.CallAsserts, CallAssert{Ordinal: k, Callee: f[1], C: c})
 				break
 			}
 			if len(f) != 4 || f[2] != "as" {
